@@ -17,6 +17,7 @@ RULE = (
     ' Masks are handed over as boolean arrays or as point indices. Every third case also compares copy(), astype() and an '
     'in-place reload() of the surface region with the original (same dA, dV, normals, tangents) and a copy on points scaled '
     'by s (area vectors scale with s^(dim-1)).'
+    ' Masks that select nothing / the first point only; meshes with a point without cells; copy / reload with another rule of the same size; family fine-mesh-masks (55 - 72 points per side: face selection against the face table).'
 )
 ASSUMPTIONS = [
     "volume regions (C06) and element reference coordinates (C04) are used to build the oracle",
